@@ -4,6 +4,7 @@
 -/
 import Lean.Data.Json
 import Spil.Model.Find
+import Spil.Spec.Sid
 
 open Lean
 
@@ -254,6 +255,10 @@ def step (st : State) (j : Json) : P Json := do
     | "exists" => return result jbool (found.map (fun l => match l.head? with
         | some s => !s.isEmpty | none => false))
     | _ => throw "bad find mode"
+  | "spec_plain" => return result jsid (.ok (Spec.plainSid e c.cfg.sid.templates (← fieldStr j "s")))
+  | "spec_forced" =>
+    return result jsid (.ok (Spec.forcedSid e c.cfg.sid.templates (← fieldStr j "ty") (← fieldStr j "rest")))
+  | "spec_table_ok" => return result jbool (.ok (Spec.sidTableOk e c.cfg.sid.templates))
   | "extrapolate_templates" =>
     return result jdict (.ok (ConfUtil.extrapolateTemplates (← fieldStr j "sep")
       (← dict (← field j "templates")) (← listOf str (← field j "to_extrapolate"))))
